@@ -54,7 +54,24 @@ def sym_int(x=0, *a):
     return builtins.int(x)
 
 
+SYM_LITERAL = 'SYMF'
+
+
+def sym_literal(value):
+    """a string token that float() reads back as the given symbolic value (contract: float(repr(x)) == x)"""
+    reg = core.CTX.notes.setdefault('symfloat', {})
+    k = len(reg)
+    reg[k] = value
+    return '%s%d' % (SYM_LITERAL, k)
+
+
 def sym_float(x=0.0):
+    if isinstance(x, str) and x.startswith(SYM_LITERAL) and core.CTX is not None:
+        reg = core.CTX.notes.get('symfloat', {})
+        try:
+            return reg[builtins.int(x[len(SYM_LITERAL):])]
+        except (KeyError, ValueError):
+            pass
     if isinstance(x, SFP):
         return core.cast(x, core.DT64)
     if isinstance(x, (XR, core.EFP)):
